@@ -14,7 +14,7 @@ import (
 
 type candidate struct {
 	name string
-	gen  func(get func(ssa.Value) (Term, bool), st *State) (Term, bool)
+	gen  func(f *Frame, get func(ssa.Value) (Term, bool), st *State) (Term, bool)
 }
 
 // loopKey identifies a loop across re-encodings.
@@ -26,7 +26,7 @@ type loopKey struct {
 func (e *Enc) loopCandidates(f *Frame, li *loopInfo) []*Clause {
 	var out []*Clause
 	h := li.header
-	addC := func(name string, gen func(get func(ssa.Value) (Term, bool), st *State) (Term, bool)) {
+	addC := func(name string, gen func(f *Frame, get func(ssa.Value) (Term, bool), st *State) (Term, bool)) {
 		out = append(out, &Clause{Name: "auto: " + name, Text: name, Gen: gen, Props: nil})
 	}
 	for _, in := range h.Instrs {
@@ -59,7 +59,7 @@ func (e *Enc) loopCandidates(f *Frame, li *loopInfo) []*Clause {
 			}
 			for _, lo := range []int64{0, -1} {
 				lo := lo
-				addC(fmt.Sprintf("%s >= %d", pn, lo), func(get func(ssa.Value) (Term, bool), st *State) (Term, bool) {
+				addC(fmt.Sprintf("%s >= %d", pn, lo), func(f *Frame, get func(ssa.Value) (Term, bool), st *State) (Term, bool) {
 					v, ok := get(p)
 					return ge(v, intLit(lo)), ok
 				})
@@ -67,7 +67,7 @@ func (e *Enc) loopCandidates(f *Frame, li *loopInfo) []*Clause {
 			if init != nil {
 				if _, isConst := init.(*ssa.Const); !isConst {
 					iv := init
-					addC(fmt.Sprintf("%s >= init", pn), func(get func(ssa.Value) (Term, bool), st *State) (Term, bool) {
+					addC(fmt.Sprintf("%s >= init", pn), func(f *Frame, get func(ssa.Value) (Term, bool), st *State) (Term, bool) {
 						v, ok := get(p)
 						i, ok2 := get(iv)
 						return ge(v, i), ok && ok2
@@ -78,22 +78,22 @@ func (e *Enc) loopCandidates(f *Frame, li *loopInfo) []*Clause {
 			if isFlagType(p.Type()) || isUnsigned(p.Type()) {
 				continue
 			}
-			addC(fmt.Sprintf("%s >= 0 (bv)", pn), func(get func(ssa.Value) (Term, bool), st *State) (Term, bool) {
+			addC(fmt.Sprintf("%s >= 0 (bv)", pn), func(f *Frame, get func(ssa.Value) (Term, bool), st *State) (Term, bool) {
 				v, ok := get(p)
 				return mk(SBool, "bvsge", v, bvLit(0)), ok
 			})
-			addC(fmt.Sprintf("%s <= 1<<32 (bv)", pn), func(get func(ssa.Value) (Term, bool), st *State) (Term, bool) {
+			addC(fmt.Sprintf("%s <= 1<<32 (bv)", pn), func(f *Frame, get func(ssa.Value) (Term, bool), st *State) (Term, bool) {
 				v, ok := get(p)
 				return mk(SBool, "bvsle", v, bvLit(1<<32)), ok
 			})
 		case SSlice:
-			addC(fmt.Sprintf("len(%s) >= 1", pn), func(get func(ssa.Value) (Term, bool), st *State) (Term, bool) {
+			addC(fmt.Sprintf("len(%s) >= 1", pn), func(f *Frame, get func(ssa.Value) (Term, bool), st *State) (Term, bool) {
 				v, ok := get(p)
 				return ge(slLen(v), intLit(1)), ok
 			})
 			if init != nil {
 				iv := init
-				addC(fmt.Sprintf("len(%s) >= len(init)", pn), func(get func(ssa.Value) (Term, bool), st *State) (Term, bool) {
+				addC(fmt.Sprintf("len(%s) >= len(init)", pn), func(f *Frame, get func(ssa.Value) (Term, bool), st *State) (Term, bool) {
 					v, ok := get(p)
 					i, ok2 := get(iv)
 					return ge(slLen(v), slLen(i)), ok && ok2
@@ -102,10 +102,64 @@ func (e *Enc) loopCandidates(f *Frame, li *loopInfo) []*Clause {
 		case SStr:
 			if init != nil {
 				iv := init
-				addC(fmt.Sprintf("len(%s) <= len(init)", pn), func(get func(ssa.Value) (Term, bool), st *State) (Term, bool) {
+				addC(fmt.Sprintf("len(%s) <= len(init)", pn), func(f *Frame, get func(ssa.Value) (Term, bool), st *State) (Term, bool) {
 					v, ok := get(p)
 					i, ok2 := get(iv)
 					return le(sLen(v), sLen(i)), ok && ok2
+				})
+			}
+		}
+	}
+	// heap templates: fields of the pointer parameters keep their entry value / length
+	var roots []*ssa.Parameter
+	for fn := f.fn; fn != nil; fn = fn.Parent() {
+		roots = append(roots, fn.Params...)
+	}
+	for _, prm := range roots {
+		_, stT, ok := isStructPtr(prm.Type())
+		if !ok || opaqueStruct(stT) != "" {
+			continue
+		}
+		st := stT.Underlying().(*types.Struct)
+		for i := 0; i < st.NumFields(); i++ {
+			fam := fieldFamily(stT, i)
+			if _, hav := li.fams[fam]; !hav && !li.all {
+				continue
+			}
+			ft := st.Field(i).Type()
+			if _, nested := ft.Underlying().(*types.Struct); nested {
+				continue
+			}
+			fs := e.structFieldSort(stT, i)
+			pp, ii, tt := prm, i, stT
+			cur := func(f *Frame, get func(ssa.Value) (Term, bool), st *State) (Term, Term, bool) {
+				ref, ok := get(pp)
+				if !ok {
+					return Term{}, Term{}, false
+				}
+				a := sel(f.e.family(st, fieldFamily(tt, ii), arraySort(SInt, fs)), ref, fs)
+				pre := f.entry
+				if hi := f.headerIn[h]; hi != nil {
+					pre = hi.st // the state just before the loop
+				}
+				b := sel(f.e.family(pre, fieldFamily(tt, ii), arraySort(SInt, fs)), ref, fs)
+				return a, b, true
+			}
+			fname := prm.Name() + "." + st.Field(i).Name()
+			switch fs {
+			case SInt, SBool, SStr, SBV:
+				addC(fmt.Sprintf("%s unchanged by the loop", fname), func(f *Frame, get func(ssa.Value) (Term, bool), st *State) (Term, bool) {
+					a, b, ok := cur(f, get, st)
+					return eq(a, b), ok
+				})
+			case SSlice:
+				addC(fmt.Sprintf("len(%s) unchanged by the loop", fname), func(f *Frame, get func(ssa.Value) (Term, bool), st *State) (Term, bool) {
+					a, b, ok := cur(f, get, st)
+					return eq(slLen(a), slLen(b)), ok
+				})
+				addC(fmt.Sprintf("len(%s) >= 1", fname), func(f *Frame, get func(ssa.Value) (Term, bool), st *State) (Term, bool) {
+					a, _, ok := cur(f, get, st)
+					return ge(slLen(a), intLit(1)), ok
 				})
 			}
 		}
@@ -129,7 +183,7 @@ func (e *Enc) loopCandidates(f *Frame, li *loopInfo) []*Clause {
 	for _, ip := range intPhis {
 		for _, sp := range seqPhis {
 			ip, sp := ip, sp
-			addC(fmt.Sprintf("%s <= len(%s)", phiName(ip), phiName(sp)), func(get func(ssa.Value) (Term, bool), st *State) (Term, bool) {
+			addC(fmt.Sprintf("%s <= len(%s)", phiName(ip), phiName(sp)), func(f *Frame, get func(ssa.Value) (Term, bool), st *State) (Term, bool) {
 				v, ok := get(ip)
 				w, ok2 := get(sp)
 				if w.Sort == SStr {
@@ -173,7 +227,7 @@ func (e *Enc) loopCandidates(f *Frame, li *loopInfo) []*Clause {
 			if pn == "" {
 				pn = p.Name()
 			}
-			addC(fmt.Sprintf("%s%+d <= %s", pn, o, bg.Name()), func(get func(ssa.Value) (Term, bool), st *State) (Term, bool) {
+			addC(fmt.Sprintf("%s%+d <= %s", pn, o, bg.Name()), func(f *Frame, get func(ssa.Value) (Term, bool), st *State) (Term, bool) {
 				v, ok := get(p)
 				w, ok2 := get(bg)
 				if w.Sort != SInt {
@@ -226,6 +280,9 @@ func inferInvariants(P *Program, U *Universe, fn *ssa.Function, dir string, seed
 		e.firstRound = first
 		runEncoding(e, fn, nil)
 		if e.unsupported != "" {
+			if os.Getenv("GOVC_DEBUG") != "" {
+				fmt.Fprintf(os.Stderr, "houdini %s round %d: unsupported: %s\n", funcKey(fn), round, e.unsupported)
+			}
 			return map[loopKey][]*Clause{}
 		}
 		if first {
@@ -242,10 +299,17 @@ func inferInvariants(P *Program, U *Universe, fn *ssa.Function, dir string, seed
 				obs = append(obs, o)
 			}
 		}
+		if os.Getenv("GOVC_DEBUG") != "" {
+			n := 0
+			for _, cs := range kept {
+				n += len(cs)
+			}
+			fmt.Fprintf(os.Stderr, "houdini %s round %d: %d kept candidates, %d obligations (%d total)\n", funcKey(fn), round, n, len(obs), len(e.obligs))
+		}
 		if len(obs) == 0 {
 			return kept
 		}
-		solveAll(obs, dir, 4, 16, seed, []int{0, 1}, false)
+		solveAll(obs, dir, 2, 16, seed, []int{0}, false)
 		dropped := 0
 		bad := map[*Clause]bool{}
 		for _, o := range obs {
